@@ -283,6 +283,51 @@ def ord_rule(repo, mir, res, rule="ORD"):
     res.check(len(creators) == 3, rule, f"{rule}:{fq}:creators", f"{len(creators)} get_file_or_stdout sites (script, --regex, --dfa)", fn.loc())
 
 
+def spanline_rule(repo, res, rule="SPANLINE"):
+    """Discharge of the `dep-contract:chic` rows (chic / annotate-snippets subtract column_start from column_end of one
+    source line): HumanSpan::from_range may take the end column from the *later* position only when both positions are
+    on the same line. Re-checked so that the repair of F-C06-3 coming undone is reported again."""
+    fq = "parse::HumanSpan::from_range"
+    fn = repo.fn(fq)
+    key = "PANIC:main::ErrMsg::error|dep-contract:chic|chic::Error::error||:same-line-end-column"
+    if fn is None or len(fn.params) < 2:
+        res.undecided(rule, key, f"{fq} not found")
+        return
+    first, second = fn.params[0]["name"], fn.params[1]["name"]
+    pm = A.parent_map(fn.body)
+
+    def on(n, who):
+        return n["k"] == "MethodCall" and n["recv"]["k"] == "Path" and n["recv"]["path"] == who
+
+    def same_line_test(c):
+        if c["k"] != "Binary" or c["op"] not in ("==", "!=", ">", "<"):
+            return None
+        sides = [c["left"], c["right"]]
+        if all(x["k"] == "MethodCall" and x["method"] == "location_line" for x in sides) and {x["recv"].get("path") for x in sides} == {first, second}:
+            if c["op"] in ("==", "!="):
+                return c["op"]
+            # `later.line > earlier.line` / `earlier.line < later.line`: the else branch is the same-line case (later >= earlier always)
+            if (c["op"] == ">" and c["left"]["recv"].get("path") == second) or (c["op"] == "<" and c["left"]["recv"].get("path") == first):
+                return "!="
+        return None
+
+    cols = [n for n in A.walk(fn.body) if on(n, second) and n["method"] in ("get_column", "get_utf8_column", "naive_get_utf8_column")]
+    bad = []
+    for n in cols:
+        ok = False
+        for par, role in A.guards_of(n, pm):
+            if par["k"] == "If":
+                op = same_line_test(par["cond"])
+                if (op == "==" and role == "then") or (op == "!=" and role == "else"):
+                    ok = True
+        if not ok:
+            bad.append(n["l"])
+    starts = [n for n in A.walk(fn.body) if on(n, first) and n["method"] == "get_column"]
+    res.check(not bad and bool(starts), rule, key,
+              f"{fq}: the end column is read from `{second}` ({len(cols)} site(s)) only under `{second}.location_line() == {first}.location_line()`" if not bad else
+              f"{fq} takes the end column from `{second}` at line(s) {bad} although it may lie on a later line: column_end < column_start reaches chic's renderer, which panics", fn.loc())
+
+
 def callgraph_soundness(mir, reach, res, rule="CG"):
     unresolved = collections.Counter()
     dyn = 0
@@ -315,6 +360,7 @@ def run(repo, res, tier):
     exit_rule(repo, mir, reach, inv, res)
     rec_rule(repo, mir, reach, res)
     ord_rule(repo, mir, res)
+    spanline_rule(repo, res)
     callgraph_soundness(mir, reach, res)
     c15.warn_rules(repo, res)
     res.floor("PANIC", res.count("PANIC"), 90)
